@@ -92,7 +92,7 @@ theorem depsLoop_spec (g : G) (hg : GInv g) (i : Nat) :
         rcases hu with hu | hu
         · rcases List.mem_append.1 hu with hu | hu
           · exact hinv.reach u (Or.inl (by rw [hqueue]; simp [hu]))
-          · exact Or.inr (hres u (List.mem_filter.1 hu).1)
+          · exact Or.inr (hres u (List.mem_eraseDups.1 (List.mem_filter.1 hu).1))
         · rcases (mem_sadd seen nxt u).1 hu with hu | hu
           · exact hinv.reach u (Or.inr hu)
           · subst hu; exact hnreach
@@ -114,7 +114,7 @@ theorem depsLoop_spec (g : G) (hg : GInv g) (i : Nat) :
           refine ⟨(mem_sunion _ _ _).2 (Or.inr huw), ?_⟩
           by_cases hs : w ∈ sadd seen u
           · exact Or.inl hs
-          · exact Or.inr (List.mem_append.2 (Or.inr (List.mem_filter.2 ⟨huw, by simpa using hs⟩)))
+          · exact Or.inr (List.mem_append.2 (Or.inr (List.mem_filter.2 ⟨List.mem_eraseDups.2 huw, by simpa using hs⟩)))
       · rcases hinv.start with hs | hs
         · exact Or.inl ((mem_sadd _ _ _).2 (Or.inl hs))
         · rw [hqueue] at hs
@@ -124,7 +124,7 @@ theorem depsLoop_spec (g : G) (hg : GInv g) (i : Nat) :
       · intro u hu
         rcases List.mem_append.1 hu with hu | hu
         · exact hinv.inrange u (by rw [hqueue]; simp [hu])
-        · exact (pedge_lt hg (List.mem_filter.1 hu).1).2
+        · exact (pedge_lt hg (List.mem_eraseDups.1 (List.mem_filter.1 hu).1)).2
 
 /-- **`dependencies(x, recurse=True)`**: when it returns, exactly the nodes reachable from `x` in one step or more -/
 theorem dependenciesRec_spec {g : G} (hg : GInv g) {x : Nat} (hx : g.Node x) {l : List Nat}
